@@ -252,13 +252,11 @@ def handleProc (j : Json) : R Json := do
           | none => [("name", jOk (jBytes (Spec.publicName r.comm none)))])
         ++ (match procstat with
           | some w => if wfProcStatB w then [("create_time", jOk (jRat (Spec.createTime tck (w.btime : Rat) r)))]
-              -- two calls in one interpreter (C06_create_time_two_calls): the btime of the FIRST call,
-              -- unless that was 0 (falsy pin): then the btime published at the second call
+              -- two calls in one interpreter (C06_create_time_two_calls, TimeOp.promised): the btime the FIRST
+              -- call pinned, 0 included, whatever /proc/stat says at the second call
               ++ (match procstat2 with
                   | some w2 =>
-                    (if w.btime != 0 then [("create_time_pinned", jOk (jRat (Spec.createTime tck (w.btime : Rat) r)))]
-                    else if wfProcStatB w2 then [("create_time_pinned", jOk (jRat (Spec.createTime tck (w2.btime : Rat) r)))]
-                    else [])
+                    [("create_time_pinned", jOk (jRat (Spec.createTime tck (w.btime : Rat) r)))]
                     -- C06_time_call_history: boot_time() returns the btime published at its own moment
                     ++ (if wfProcStatB w2 then [("boot_time_now", jOk (jRat (w2.btime : Rat)))] else [])
                   | none => [])
